@@ -306,7 +306,8 @@ def cal_probe(detector, **kwargs) -> None:
     detector.image.array = np.asarray(np.clip(np.floor(data), 0, 2**31), dtype="uint32")
 
 
-def c19_fill(detector, a: float = 0.0, b: float = 0.0, as_particles: bool = False, count_scale: float = 0.0) -> None:
+def c19_fill(detector, a: float = 0.0, b: float = 0.0, as_particles: bool = False, count_scale: float = 0.0,
+             noise: float = 0.0) -> None:
     """C19: fill all five buckets with distinct, parameter-dependent, position-dependent values:
     bucket[y, x] = base_bucket + off + (y*cols + x)/64   (image: uint16 of 5000 + off + y*cols + x)
     with off = 16*a + b + count_scale * pipeline_count.
@@ -331,6 +332,9 @@ def c19_fill(detector, a: float = 0.0, b: float = 0.0, as_particles: bool = Fals
     else:
         detector.charge.add_charge_array(2000.0 + off + idx / 64.0)
     detector.pixel.array = 3000.0 + off + idx / 64.0
+    if noise:
+        # an unseeded stochastic model: every execution gives other values (process-wide generator)
+        detector.pixel.array = detector.pixel.array + np.random.normal(scale=float(noise), size=(rows, cols))
     detector.signal.array = 4000.0 + off + idx / 64.0
     detector.image.array = np.asarray(5000.0 + off + idx, dtype=np.uint16)
 
@@ -558,19 +562,30 @@ def c03_apply(detector, ops) -> None:
         elif kind == "collect":  # ["collect"]  what simple_collection does
             detector.pixel.array += detector.charge.array
         elif kind == "scene":  # ["scene", k[, wavelengths]]  put a source into the scene
-            k = int(op[1])
-            wl = [float(v) for v in (op[2] if len(op) > 2 else [500.0, 600.0])]
-            src = xr.Dataset(
-                {"x": ("ref", [float(k)]), "y": ("ref", [2.0 * k]), "weight": ("ref", [1.0]),
-                 "flux": (("ref", "wavelength"), [[float(k + j) for j in range(len(wl))]])},
-                coords={"ref": [0], "wavelength": wl},
-            )
-            detector.scene.add_source(src)
+            detector.scene.add_source(c03_source(op))
         elif kind == "data":  # ["data", key, values]  processed data
             _, key, vals = op
             detector.data[f"/{key}"] = xr.DataTree(xr.Dataset({"v": ("n", [float(v) for v in vals])}))
+        elif kind == "datac":  # ["datac", key, dim, labels, values]  processed data along a LABELLED dimension (the
+            # dimension may be named like a bucket dimension — time, y, x, wavelength — with its own labels)
+            _, key, dim, labels, vals = op
+            detector.data[f"/{key}"] = xr.DataTree(
+                xr.Dataset({"v": (dim, [float(v) for v in vals])}, coords={dim: [float(v) for v in labels]}))
         else:
             raise ValueError(kind)
+
+
+def c03_source(op):
+    """the source a ["scene", k[, wavelengths]] operation puts into the scene"""
+    import xarray as xr
+
+    k = int(op[1])
+    wl = [float(v) for v in (op[2] if len(op) > 2 else [500.0, 600.0])]
+    return xr.Dataset(
+        {"x": ("ref", [float(k)]), "y": ("ref", [2.0 * k]), "weight": ("ref", [1.0]),
+         "flux": (("ref", "wavelength"), [[float(k + j) for j in range(len(wl))]])},
+        coords={"ref": [0], "wavelength": wl},
+    )
 
 
 def c03_writer(detector, ident: str = "") -> None:
